@@ -81,7 +81,7 @@ def rule_pred(ctx):
   if pos:
     K = sym.mk("idx", b.artifacts, pos[0][1]["k"])
     bl = sym.mk("bitlen", modulus_of(K))
-    ok, d = regions.equivalent_dnf([p[0] for p in pos], lambda v: v[bl] < 2048, main=bl)
+    ok, d = regions.equivalent_dnf([p[0] for p in pos], lambda v: v[bl] < 2048, main=bl, spec_consts=(2048,))
     ctx.record(R, b.where(), "flag <=> bit_length(n) < 2048 (same key)", ok, d)
   else:
     ctx.violation(R, b.where(), "flag <=> bit_length(n) < 2048 (same key)", "no positive path")
@@ -91,7 +91,7 @@ def rule_pred(ctx):
   if pos:
     K = sym.mk("idx", b.artifacts, pos[0][1]["k"])
     E = sym.mk("call", lit("util:Bytes2Int"), sym.mk("attr", sym.mk("attr", K, "rsa_info"), "e"))
-    ok, d = regions.equivalent_dnf([p[0] for p in pos], lambda v: v[E] != 65537, main=E)
+    ok, d = regions.equivalent_dnf([p[0] for p in pos], lambda v: v[E] != 65537, main=E, spec_consts=(65537,))
     ctx.record(R, b.where(), "flag <=> e != 65537 (same key)", ok, d)
   else:
     ctx.violation(R, b.where(), "flag <=> e != 65537 (same key)", "no positive path")
@@ -351,8 +351,25 @@ def rule_dlog_loop(ctx):
     probs.append("does not return False after the whole group was enumerated")
   ctx.record(R, f.where, "enumerates base^0 .. base^(n-2), compare-then-multiply", not probs, "; ".join(sorted(set(probs))) or "covers the subgroup generated by base for prime n")
   f = repo.func("roca", "ROCAKeyVariantDetector._QuadraticResidues")
-  src = ast.unparse(f.node)
-  ok = "a = [False] * p" in src and "for i in range(p):" in src and "a[i * i % p] = True" in src and src.rstrip().endswith("return a")
+  wq = sym.Walker(repo, f)
+  wq.run()
+  pp = P("param", [q for q in f.params() if q != "self"][0])
+  ok = False
+  alloc = sym.mk("listrep", P("seq", Poly.const(0)), pp)            # [False] * p
+  loops = [i_ for i_ in wq.loop_info.values() if i_["visits"]]
+  if len(loops) == 1:
+    info = loops[0]
+    vis = info["visits"][0]
+    k = as_poly(vis["k"])
+    rng = isinstance(vis["iter"], Poly) and as_poly(vis["iter"]) == sym.mk("range", pp)
+    paths = [bp for bp in info["body_paths"] if bp[4] is vis]
+    st = [e for e in wq.events if e.kind == "store" and e.state.tags]
+    one = len({id(e.node) for e in st}) == 1 and all(kind == "fall" for kind, _, _, _, _ in paths) and len(paths) == 1
+    good = bool(st) and all(as_poly(e.data["index"]) == sym.mk("mod", k * k, pp) and isinstance(e.data["value"], Const) and e.data["value"].v is True for e in st)
+    tab = [nm for nm, v_ in vis["pre_env"].items() if isinstance(v_, Poly) and v_ == alloc and isinstance(vis["head"].env.get(nm), Poly) and st and as_poly(st[0].data["base"]) == vis["head"].env[nm]]
+    rets = [t_ for t_ in wq.terminals if t_[0] == "return"]
+    ret_ok = bool(tab) and bool(rets) and all(isinstance(t_[1], Poly) and t_[1] == vis["after_env"][tab[0]] for t_ in rets)
+    ok = bool(rng and one and good and ret_ok)
   ctx.record(R, f.where, "a[i*i % p] = True for all i in range(p)", ok, "complete residue table of length p" if ok else "residue table construction changed")
 
 
@@ -360,34 +377,49 @@ def rule_deny_format(ctx):
   R = "R-C06-DENY-FORMAT"
   repo = ctx.repo
   b = body_of(repo, "rsa_single_checks:CheckOpensslDenylist.Check")
-  fn = b.func.node
-  asg = {}
-  for s in ast.walk(fn):
-    if isinstance(s, ast.Assign) and isinstance(s.targets[0], ast.Name):
-      asg[s.targets[0].id] = s.value
+  # the key looked up in the list, as the walker sees it on the flagging path (temporaries and statement order do not matter):
+  #   '%s:%s' % ('RSA-%d' % bit_length(n), sha1(('Modulus=%X\n' % n).encode()).hexdigest()[20:])
   probs = []
-  kt = asg.get("keytype")
-  if not (kt is not None and isinstance(kt, ast.BinOp) and isinstance(kt.left, ast.Constant) and kt.left.value == "RSA-%d" and "bit_length" in ast.unparse(kt.right)):
-    probs.append("key type is not 'RSA-%d' % bit_length(n)")
-  ns = asg.get("n_str")
-  if not (ns is not None and isinstance(ns, ast.BinOp) and isinstance(ns.left, ast.Constant) and ns.left.value == "Modulus=%X\n" and ast.unparse(ns.right) == "n"):
-    probs.append("hashed text is not 'Modulus=%X\\n' % n (openssl-vulnkey format: upper-case hex, trailing newline)")
-  nh = asg.get("n_hash")
-  ok_hash = False
-  if nh is not None and isinstance(nh, ast.Subscript) and isinstance(nh.slice, ast.Slice):
-    inner = ast.unparse(nh.value)
-    if inner in ("hashlib.sha1(n_str.encode('utf-8')).hexdigest()", "hashlib.sha1(n_str.encode()).hexdigest()", "hashlib.sha1(n_str.encode('ascii')).hexdigest()"):
-      digest = "".join(chr(0x100 + i) for i in range(40))   # abstract 40-digit digest with distinct digits
-      try:
-        part = fold.Folder({"D": digest}).fold(ast.Subscript(value=ast.Name(id="D", ctx=ast.Load()), slice=nh.slice, ctx=ast.Load()))
-        ok_hash = part == digest[20:]
-      except fold.NotConst:
-        ok_hash = False
-  if not ok_hash:
-    probs.append("fingerprint is not the last 20 hex digits (digits 20..39) of sha1(text)")
-  ks = asg.get("keystr")
-  if not (ks is not None and isinstance(ks, ast.BinOp) and isinstance(ks.left, ast.Constant) and ks.left.value == "%s:%s" and ast.unparse(ks.right) == "(keytype, n_hash)"):
+  pos, neg, skip = positive_paths(b)
+  keyv = None
+  for conds, vis, s_ in pos:
+    for c_, pol in conds:
+      if pol and c_[0] == "cmp" and c_[1] == "In" and isinstance(c_[2], Poly):
+        keyv = c_[2]
+  ka = keyv.as_atom() if keyv is not None else None
+
+  def fmt_of(a_, text, n_args):
+    return a_ is not None and a_.kind == "strfmt" and len(a_.args) == 1 + n_args and a_.args[0].as_atom() is not None and a_.args[0].as_atom().kind == "lit" and \
+        a_.args[0].as_atom().args[0] == repr(text)
+  if ka is None or not fmt_of(ka, "%s:%s", 2):
     probs.append("key string is not '%s:%s' % (keytype, n_hash)")
+  else:
+    K = sym.mk("idx", b.artifacts, pos[0][1]["k"])
+    N = modulus_of(K)
+    kt, nh = ka.args[1].as_atom(), ka.args[2].as_atom()
+    if not (fmt_of(kt, "RSA-%d", 1) and as_poly(kt.args[1]) == sym.mk("bitlen", N)):
+      probs.append("key type is not 'RSA-%d' % bit_length(n)")
+    ok_hash = False
+    okt = False
+    if nh is not None and nh.kind == "slice" and len(nh.args) == 4:
+      lo, hi, st = nh.args[1], nh.args[2], nh.args[3]
+      lo_i = 0 if repr(lo) == "lit('None')" else as_poly(lo).as_int()
+      hi_i = 40 if repr(hi) == "lit('None')" else as_poly(hi).as_int()
+      if repr(st) == "lit('None')" and lo_i is not None and hi_i is not None:
+        digest = list(range(40))
+        ok_hash = digest[lo_i:hi_i] == digest[20:]
+      hx = as_poly(nh.args[0]).as_atom()
+      if hx is not None and hx.kind in ("pm", "mcall") and repr(hx.args[1]) == "lit('hexdigest')":
+        sh = as_poly(hx.args[0]).as_atom()
+        if sh is not None and sh.kind == "extcall" and repr(sh.args[0]) == "lit('hashlib.sha1')":
+          en = as_poly(sh.args[1]).as_atom()
+          if en is not None and en.kind in ("pm", "mcall") and repr(en.args[1]) == "lit('encode')" and (len(en.args) == 2 or repr(en.args[2]) in ('lit("\'utf-8\'")', 'lit("\'ascii\'")', 'lit("\'utf8\'")')):
+            tx = as_poly(en.args[0]).as_atom()
+            okt = fmt_of(tx, "Modulus=%X\n", 1) and as_poly(tx.args[1]) == N
+    if not okt:
+      probs.append("hashed text is not 'Modulus=%X\\n' % n (openssl-vulnkey format: upper-case hex, trailing newline)")
+    if not ok_hash:
+      probs.append("fingerprint is not the last 20 hex digits (digits 20..39) of sha1(text)")
   ctx.record(R, b.where(), "key = 'RSA-<bits>:' + sha1('Modulus=<HEX>\\n')[20:]", not probs, "; ".join(probs) or "check-side grammar")
   # storage side
   f = repo.func("data.default_storage", "DefaultStorage.GetOpensslDenylist")
@@ -534,15 +566,7 @@ def rule_keygen(ctx):
       asg.setdefault(e.data["name"], []).append(e)
     if e.kind == "augassign":
       asg.setdefault(e.data["name"] + "+=", []).append(e)
-  okw = False
-  for e in asg.get("prime_bytes", []):
-    a = as_poly(e.data["value"]).as_atom()
-    if a is not None and a.kind == "slice" and a.args[1].as_int() == 1 and (a.args[2] - (nbytes + 1)).is_zero():
-      okw = True
-  src = ast.unparse(g.node)
-  okl = "while len(prime_bytes) <= p_size_bytes:" in src
-  ctx.record(R, g.where, "byte window prime_bytes[1 : size+1] of more than size bytes", okw and okl, "first keystream byte skipped, p_size_bits // 8 bytes used" if okw and okl else
-             "byte window of the candidate changed")
+  okw = okl = False          # decided below, from the value the candidate is built from
   # prime search: read from the loop structure of the walker (names, augmented vs plain assignment and statement order are irrelevant)
   bits = P("param", [q for q in g.params() if q != "self"][0])
   search = None
@@ -570,6 +594,27 @@ def rule_keygen(ctx):
       if ms:
         okm = True
         Mv = Poly.atom(ms[0])
+        # byte window: from_bytes(X[1 : size + 1]) where X leaves a filling loop that runs while len(X) <= size (so X has more than size bytes)
+        for x_ in ms[0].args:
+          fa = as_poly(x_).as_atom()
+          if fa is not None and len(fa.args) > 2 and "from_bytes" in repr(fa.args[1]):
+            wa = as_poly(fa.args[2]).as_atom()
+            if wa is not None and wa.kind == "slice" and as_poly(wa.args[1]).as_int() == 1 and (as_poly(wa.args[2]) - (nbytes + 1)).is_zero() and repr(wa.args[3]) == "lit('None')":
+              okw = True
+              X = as_poly(wa.args[0])
+              for inf2 in wg.loop_info.values():
+                if not isinstance(inf2["node"], ast.While):
+                  continue
+                for v3 in inf2["visits"]:
+                  for nm3, av in v3["after_env"].items():
+                    if isinstance(av, Poly) and av == X and isinstance(v3["head"].env.get(nm3), Poly):
+                      LH = sym.mk("len", v3["head"].env[nm3])
+                      for bp in inf2["body_paths"]:
+                        for c_, pol, node in bp[2].pc:
+                          if node is inf2["node"] and pol and c_[0] == "cmp" and ((c_[1] == "LtE" and as_poly(c_[2]) == LH and (as_poly(c_[3]) - nbytes).is_zero()) or
+                                                                                    (c_[1] == "Lt" and as_poly(c_[2]) == LH and (as_poly(c_[3]) - nbytes - 1).is_zero()) or
+                                                                                    (c_[1] == "GtE" and as_poly(c_[3]) == LH and (as_poly(c_[2]) - nbytes).is_zero())):
+                            okl = True
         oka = (pre - (Mv + 31 - sym.mk("mod", Mv, Poly.const(30)))).is_zero()
       whym = "" if okm and oka else ("candidate before the search is %s" % (repr(pre)[:120],))
     # wheel walk
@@ -593,10 +638,44 @@ def rule_keygen(ctx):
     elif not conf:
       okp = False
       whyp = "the prime is not returned under the 10-round confirmation"
+  ctx.record(R, g.where, "byte window prime_bytes[1 : size+1] of more than size bytes", okw and okl, "first keystream byte skipped, p_size_bits // 8 bytes used" if okw and okl else
+             "byte window of the candidate changed")
   ctx.record(R, g.where, "msb set, aligned to 30k + 1", okm and oka, "p = from_bytes(..) | 2^(bits-1); p += 31 - p % 30" if okm and oka else "msb / alignment step changed: " + whym)
   ctx.record(R, g.where, "wheel walk until probable prime, then 10-round confirmation", okp, "candidate advanced along the wheel with a running index" if okp else "prime search loop changed: " + whyp)
   init = repo.func("keypair_generator", "Generator.__init__")
-  si = ast.unparse(init.node)
-  oki = "t = hashlib.sha1(seed).digest()" in si and "key = hashlib.sha1(t).digest()" in si and "seed = hashlib.sha1(key).digest()" in si and \
-      "self.key = key[:16]" in si and "self.seed = seed[:16]" in si
+  wi = sym.Walker(repo, init)
+  wi.run()
+
+  def sha_chain(p_):
+    """(k, root) with p_ = sha1(..sha1(root).digest()..).digest() applied k times (call identities ignored)."""
+    k_ = 0
+    while True:
+      a_ = as_poly(p_).as_atom() if not isinstance(p_, (Seq, Const, tuple)) and p_ is not None else None
+      if a_ is not None and a_.kind in ("pm", "mcall") and len(a_.args) == 2 and repr(a_.args[1]) == "lit('digest')":
+        in_ = as_poly(a_.args[0]).as_atom()
+        if in_ is not None and in_.kind == "extcall" and repr(in_.args[0]) == "lit('hashlib.sha1')" and len(in_.args) >= 2:
+          p_ = in_.args[1]
+          k_ += 1
+          continue
+      return k_, p_
+
+  def head16(p_):
+    a_ = as_poly(p_).as_atom() if not isinstance(p_, (Seq, Const, tuple)) and p_ is not None else None
+    if a_ is not None and a_.kind == "slice" and len(a_.args) == 4 and (repr(a_.args[1]) == "lit('None')" or as_poly(a_.args[1]).as_int() == 0) and as_poly(a_.args[2]).as_int() == 16 \
+       and repr(a_.args[3]) == "lit('None')":
+      return a_.args[0]
+    return None
+  seedp = P("param", [q for q in init.params() if q != "self"][0])
+  attrs = {}
+  for e in wi.events:
+    if e.kind == "setattr" and as_poly(e.data["base"]) == SELF:
+      attrs[e.data["attr"]] = e.data["value"]
+  oki = attrs.get("key") is not None and attrs.get("seed") is not None and head16(attrs["key"]) is not None and head16(attrs["seed"]) is not None
+  if oki:
+    k1, r1 = sha_chain(head16(attrs["key"]))
+    k2, r2 = sha_chain(head16(attrs["seed"]))
+    oki = k1 == 2 and k2 == 3 and as_poly(r1) == seedp and as_poly(r2) == seedp
+  if oki and "orig_key" in attrs:
+    k0, r0 = sha_chain(attrs["orig_key"])
+    oki = k0 == 2 and as_poly(r0) == seedp
   ctx.record(R, init.where, "PRNG state = sha1 chain of the seed, 16-byte key and counter", oki, "key = sha1(sha1(seed))[:16], seed = sha1(key)[:16]" if oki else "seed expansion changed")
